@@ -21,6 +21,7 @@ type AssertClause struct {
 	Label string
 	After string // fragment of the source text of the statement after (or before) which the assertion holds
 	Before bool
+	Each   bool // before-each: at every innermost statement containing the fragment
 	Text  string
 }
 
@@ -204,12 +205,13 @@ func parseBlock(body string) (*Contract, error) {
 		case "assert":
 			cl := mkClause(rest, len(c.Asserts)+1)
 			before := strings.HasPrefix(cl.Text, "before")
-			body := strings.TrimSpace(strings.TrimPrefix(strings.TrimPrefix(cl.Text, "after"), "before"))
+			each := strings.HasPrefix(cl.Text, "before-each")
+			body := strings.TrimSpace(strings.TrimPrefix(strings.TrimPrefix(strings.TrimPrefix(cl.Text, "after"), "before-each"), "before"))
 			k := strings.Index(body, " :: ")
 			if !(strings.HasPrefix(cl.Text, "after") || before) || k < 0 {
 				return nil, fmt.Errorf("bad assert clause %q (want: assert @label after|before <fragment> :: expr)", rest)
 			}
-			c.Asserts = append(c.Asserts, AssertClause{Label: cl.Label, After: strings.TrimSpace(body[:k]), Before: before, Text: strings.TrimSpace(body[k+4:])})
+			c.Asserts = append(c.Asserts, AssertClause{Label: cl.Label, After: strings.TrimSpace(body[:k]), Before: before, Each: each, Text: strings.TrimSpace(body[k+4:])})
 		case "except":
 			for _, e := range strings.Split(rest, ",") {
 				if e = strings.TrimSpace(e); e != "" {
